@@ -2,7 +2,7 @@
 """Prints the markdown table of seeded changes (DESIGN.md section 10) from seeded/*/{meta,confirm}.json and check_result.txt."""
 import glob, json, os, re
 rows = []
-for d in sorted(glob.glob(os.path.join(os.path.dirname(os.path.dirname(os.path.abspath(__file__))), 'seeded', '*'))):
+for d in sorted(x for x in glob.glob(os.path.join(os.path.dirname(os.path.dirname(os.path.abspath(__file__))), 'seeded', '*')) if os.path.isdir(x)):
     sid = os.path.basename(d)
     try:
         meta = json.load(open(os.path.join(d, 'meta.json')))
